@@ -20,8 +20,8 @@ EVERY answer on the way with the same exact oracle and the same model:
     must still be what they were (also after the caller overwrites its own arrays);
     an index that decreases is mixed in (the error must not outlive the call).
   * SeriesLife: 2..4 calls of monthly2daily; the monthly Series has a DatetimeIndex
-    of unit s / ms / us / ns, with or without freq, naive / UTC / a zone with
-    daylight saving, named or not, float64 or int64 values, held plainly, as a
+    of unit s / ms / us / ns, with or without freq, naive / UTC / a zone at a fixed
+    offset, named or not, float64 or int64 values, held plainly, as a
     DataFrame column, as a slice of a longer series, on a read-only or a strided
     buffer.  Successive calls differ in one respect (other interpolation, other year
     with the same month and length - leap / common / century -, next month, other
@@ -450,8 +450,9 @@ def oracle_m2d(case, out, days):
     return fails
 
 
-def oracle_goue(case):
-    """goue = NSE of the flat-homogenised series against the series (NaN-free inputs)"""
+def oracle_goue(case, got=None):
+    """goue = NSE of the flat-homogenised series against the series (NaN-free inputs);
+    `got`: the value obtained by the caller (default: a call on fresh int64 / float64 arrays)"""
     from hydrodiy.data import signatures
     idx, xs = case["idx"], case["xs"]
     grp = groups_of(idx)
@@ -470,11 +471,452 @@ def oracle_goue(case):
         for i in pos:
             flat[i] = gm
     want = 1 - sum((a - b) ** 2 for a, b in zip(x, flat)) / den
-    with np.errstate(all="ignore"):
-        got = float(signatures.goue(np.array(idx, dtype=np.int64), np.array(xs, dtype=np.float64)))
+    if got is None:
+        with np.errstate(all="ignore"):
+            got = float(signatures.goue(np.array(idx, dtype=np.int64), np.array(xs, dtype=np.float64)))
     if not near(got, want, 1 + abs(want), rel=1e-7):
         return [("C08/goue/not-nse-of-group-means", f"goue = {got!r}, exact {float(want)!r}")]
     return []
+
+
+# ----------------------------------------------------------------------------
+# caller-side objects: stored representation and life over a sequence of calls
+
+IDX_REPRS = ["list", "tuple", "int64", "int32", "small", "int64-strided", "int32-strided", "int64-reversed",
+             "int32-reversed", "int64-readonly", "int32-readonly", "int64-swapped", "int32-swapped",
+             "int64-column", "int32-column", "series-text", "series-shuffled", "series-duplicates",
+             "series-dates", "index"]
+XS_REPRS = ["plain", "strided", "reversed", "readonly", "swapped", "column-F", "column-C", "inner-slice",
+            "readonly-strided"]
+PAR_REPRS = {"py": int, "np32": lambda v: np.int32(v), "np64": lambda v: np.int64(v),
+             "0d": lambda v: np.array(v)}
+GARBAGE_I = [I32MAX, I32MIN, 7, -7]        # what lies between / around the elements of a view
+GARBAGE_X = [1e300, -1e300, NAN, 12345.0]
+
+
+def same_float(a, b):
+    return (a != a and b != b) or (a == b and math.copysign(1.0, a) == math.copysign(1.0, b))
+
+
+def same_floats(a, b):
+    return len(a) == len(b) and all(same_float(x, y) for x, y in zip(a, b))
+
+
+class Held:
+    """one caller-side object: `obj` is handed to the library; `put(values)` rewrites its
+    content in place (False: the representation is immutable / cannot hold them);
+    `get()` reads the content back"""
+
+    def __init__(self, values, rep, kind, salt=0):
+        import pandas as pd
+        self.rep, self.kind, self.n = rep, kind, len(values)
+        self.keep = None          # owner of the memory (kept alive, written through)
+        n = len(values)
+        if kind == "i":
+            vals = [int(v) for v in values]
+            junk = GARBAGE_I[salt % len(GARBAGE_I)]
+            dt = np.int64
+            if rep.startswith("int32"):
+                dt = np.int32
+            if rep == "small":
+                dt = self.smallest(vals)
+        else:
+            vals = [float(v) for v in values]
+            junk = GARBAGE_X[salt % len(GARBAGE_X)]
+            dt = np.float64
+        lay = rep.split("-", 1)[1] if kind == "i" and rep.startswith("int") and "-" in rep else rep
+        if rep == "list":
+            self.obj = list(vals)
+        elif rep == "tuple":
+            self.obj = tuple(vals)
+        elif rep == "index":
+            self.obj = pd.Index(np.array(vals, dtype=np.int64))
+        elif rep.startswith("series"):
+            lab = {"series-text": [f"r{j:03d}" for j in range(n)],
+                   "series-shuffled": [(j * 7919 + 13) % (n + 5) - 2 for j in range(n)],
+                   "series-duplicates": [j // 2 for j in range(n)],
+                   "series-dates": list(pd.date_range("1999-12-30", periods=n, freq="D"))}[rep]
+            self.obj = pd.Series(np.array(vals, dtype=np.int64), index=lab)
+        elif lay in ("int64", "int32", "small", "plain"):
+            self.obj = np.array(vals, dtype=dt)
+        elif lay in ("strided", "readonly-strided"):
+            self.keep = np.full(2 * n + 1, junk, dtype=dt)
+            self.obj = self.keep[1::2]
+            self.obj[...] = vals
+            if lay == "readonly-strided":
+                self.obj = self.keep[1::2]
+                self.obj.flags.writeable = False
+        elif lay == "reversed":
+            self.keep = np.array(vals[::-1], dtype=dt)
+            self.obj = self.keep[::-1]
+        elif lay == "readonly":
+            self.keep = np.array(vals, dtype=dt)
+            self.obj = self.keep.view()
+            self.obj.flags.writeable = False
+        elif lay == "swapped":
+            self.obj = np.array(vals, dtype=np.dtype(dt).newbyteorder())
+        elif lay in ("column", "column-C", "column-F"):
+            self.keep = np.full((n, 3), junk, dtype=dt, order="F" if lay == "column-F" else "C")
+            self.keep[:, 1] = vals
+            self.obj = self.keep[:, 1]
+        elif lay == "inner-slice":
+            self.keep = np.full(n + 3, junk, dtype=dt)
+            self.keep[2:2 + n] = vals
+            self.obj = self.keep[2:2 + n]
+        else:
+            raise ValueError(rep)
+
+    @staticmethod
+    def smallest(vals):
+        for dt in (np.int8, np.int16, np.int32):
+            ii = np.iinfo(dt)
+            if all(ii.min <= v <= ii.max for v in vals):
+                return dt
+        return np.int64
+
+    def put(self, values):
+        if len(values) != self.n or self.rep in ("tuple", "index"):
+            return False
+        if self.kind == "i":
+            vals = [int(v) for v in values]
+            if self.rep == "small":
+                ii = np.iinfo(self.obj.dtype)
+                if not all(ii.min <= v <= ii.max for v in vals):
+                    return False
+        else:
+            vals = [float(v) for v in values]
+        if self.rep == "list":
+            self.obj[:] = vals
+        elif self.rep.startswith("series"):
+            self.obj.iloc[:] = np.array(vals, dtype=np.int64)
+        elif not self.obj.flags.writeable:
+            tgt = self.keep[1::2] if self.rep.endswith("strided") else self.keep
+            tgt[...] = vals
+        else:
+            self.obj[...] = vals
+        return True
+
+    def get(self):
+        conv = int if self.kind == "i" else float
+        return [conv(v) for v in (self.obj if isinstance(self.obj, (list, tuple)) else np.asarray(self.obj))]
+
+
+def finite_values(rng, runs):
+    xs = gen_values(rng, runs)
+    return [v if math.isfinite(v) else float(rng.randint(-9, 9)) + rng.random() for v in xs]
+
+
+def gen_arr_session(rng, maxlen):
+    """2..5 calls of aggregate / flathomogen / goue on the caller's objects"""
+    n = rng.choice([1, 2, 3, rng.randint(2, 12), rng.randint(2, 12), rng.randint(2, maxlen)])
+    steps = []
+    for k in range(rng.randint(2, 5)):
+        fn = rng.choice(["aggregate"] * 3 + ["flathomogen"] * 2 + ["goue"])
+        prev = steps[-1] if steps else None
+        if prev is not None and rng.random() < 0.15:
+            n = rng.choice([1, 2, rng.randint(2, 12), rng.randint(2, maxlen)])
+        if fn == "goue":
+            n = max(n, 2)
+        alike = prev is not None and len(prev["idx"]) == n
+        st = {"fn": fn, "idx_repr": rng.choice(IDX_REPRS), "xs_repr": rng.choice(XS_REPRS),
+              "par_repr": rng.choice(list(PAR_REPRS)), "idx_obj": "new", "xs_obj": "new"}
+        if alike:      # the caller's objects of the step before fit
+            st["idx_obj"] = rng.choice(["new", "same", "same", "rewrite", "rewrite"])
+            st["xs_obj"] = rng.choice(["new", "same", "rewrite", "rewrite"])
+        runs = gen_runs(rng, n)
+        if st["idx_obj"] == "same":
+            st["idx"] = list(prev["idx"])
+            grp = groups_of(st["idx"])
+            runs = [len(p) for _, p in grp] if grp else [n]
+        else:
+            st["idx"] = gen_index(rng, runs, rng.random() < (0.0 if fn == "goue" else 0.12))
+        if st["xs_obj"] == "same":
+            st["xs"] = list(prev["xs"])
+            if fn == "goue" and not all(math.isfinite(v) for v in st["xs"]):
+                st["fn"] = fn = "flathomogen"
+        else:
+            st["xs"] = finite_values(rng, runs) if fn == "goue" else gen_values(rng, runs)
+        st["maxnan"] = 0 if fn == "goue" else gen_maxnan(rng, runs)
+        if fn == "aggregate":
+            st["op"] = rng.choice([0, 1, 2, 2, 3, 3])
+        steps.append(st)
+    return {"call": "arrays", "steps": steps}
+
+
+class ArrLife:
+    """the caller's index / inputs objects and the vectors it was handed back, over a
+    sequence of calls of aggregate / flathomogen / goue"""
+
+    def __init__(self):
+        self.I = self.X = None
+        self.kept = []      # (step number, function, returned ndarray, its values when returned)
+        self.nobj = 0
+
+    def place(self, cur, values, rep, how, kind):
+        """-> (the caller's object holding `values`, what was done: new / same / rewrite)"""
+        if how == "same" and cur is not None and cur.n == len(values):
+            return cur, "same"
+        if how == "rewrite" and cur is not None:
+            try:
+                if cur.put(values):
+                    return cur, "rewrite"
+            except Exception:      # the object cannot take them any more: the caller makes a new one
+                pass
+        self.nobj += 1
+        return Held(values, rep, kind, salt=self.nobj), "new"
+
+    def step(self, k, st):
+        """-> (values returned or None when the call raised, text of the exception, (how, how))"""
+        from hydrodiy.data import dutils, signatures
+        self.I, hi = self.place(self.I, st["idx"], st["idx_repr"], st["idx_obj"], "i")
+        self.X, hx = self.place(self.X, st["xs"], st["xs_repr"], st["xs_obj"], "x")
+        par = PAR_REPRS[st["par_repr"]]
+        try:
+            with np.errstate(all="ignore"):
+                if st["fn"] == "aggregate":
+                    r = dutils.aggregate(self.I.obj, self.X.obj, par(st["op"]), par(st["maxnan"]))
+                elif st["fn"] == "flathomogen":
+                    r = dutils.flathomogen(self.I.obj, self.X.obj, par(st["maxnan"]))
+                else:
+                    r = signatures.goue(self.I.obj, self.X.obj)
+                out = fl(np.asarray(r, dtype=np.float64).ravel())
+        except Exception as e:     # "rejected with an error": any exception
+            return None, f"{type(e).__name__}: {str(e)[:120]}", (hi, hx)
+        if st["fn"] != "goue":
+            self.kept.append((k, st["fn"], r, out))
+        return out, None, (hi, hx)
+
+    def stale(self):
+        """earlier results that are no longer what they were: [(step, function, then, now)]"""
+        bad = []
+        for k, fn, r, then in self.kept:
+            now = fl(np.asarray(r, dtype=np.float64).ravel())
+            if not same_floats(then, now):
+                bad.append((k, fn, then, now))
+        return bad
+
+    def scribble(self):
+        """the caller overwrites its own objects"""
+        if self.I is not None:
+            self.I.put([5] * self.I.n)
+        if self.X is not None:
+            self.X.put([-777.25] * self.X.n)
+
+
+# monthly series
+
+# zones WITH daylight saving ("Australia/Sydney", "Europe/Paris") are not drawn: the cubic branch of the
+# pinned code raises for a tz-aware series spanning a clock-back (reported as a defect, notes/C08.md);
+# add them here once it is repaired
+M2D_TZ = [None, None, None, "UTC", "Etc/GMT-10", "Asia/Kolkata"]
+M2D_HOLD = ["plain", "plain", "int64", "frame-column", "slice", "readonly", "strided"]
+YEAR_KINDS = [1999, 2000, 2001, 2004, 1900, 2100, 1800, 2200, 1700, 1896, 2096]
+
+
+def build_monthly(st, salt=0):
+    """-> (Series handed to monthly2daily, objects to keep alive)"""
+    import pandas as pd
+    n = len(st["vals"])
+    hold = st["hold"]
+    pre, post = (1 + salt % 3, 1 + salt % 2) if hold == "slice" else (0, 0)
+    y, m = st["year"], st["month"]
+    m -= pre
+    while m < 1:
+        y, m = y - 1, m + 12
+    idx = pd.date_range(f"{y:04d}-{m:02d}-01", periods=n + pre + post, freq="MS", unit=st["unit"], tz=st["tz"])
+    if not st["freq"]:
+        idx = pd.DatetimeIndex(list(idx)).as_unit(st["unit"])
+    if st["name"]:
+        idx = idx.rename("time")
+    vals = [float(v) for v in st["vals"]]
+    name = "rain" if st["name"] else None
+    if hold == "int64" and all(v == int(v) and abs(v) < 2 ** 53 for v in vals):
+        return pd.Series(np.array([int(v) for v in vals], dtype=np.int64), index=idx, name=name), None
+    if hold == "frame-column":
+        df = pd.DataFrame({"a": [1e6] * n, "b": vals, "c": [NAN] * n}, index=idx)
+        return df["b"], df
+    if hold == "slice":
+        long = pd.Series([1e6] * pre + vals + [2e6] * post, index=idx, name=name)
+        return long.iloc[pre:pre + n], long
+    if hold == "readonly":
+        arr = np.array(vals, dtype=np.float64)
+        arr.flags.writeable = False
+        return pd.Series(arr, index=idx, name=name, copy=False), arr
+    if hold == "strided":
+        base = np.full(2 * n + 1, 1e6)
+        base[1::2] = vals
+        return pd.Series(base[1::2], index=idx, name=name, copy=False), base
+    return pd.Series(np.array(vals, dtype=np.float64), index=idx, name=name), None
+
+
+def gen_m2d_session(rng, maxmonths):
+    """2..4 calls of monthly2daily; successive calls differ in one respect"""
+    first = gen_m2d_case(rng, min(maxmonths, 30), rng.choice(["flat", "cubic"]))
+    if rng.random() < 0.6:
+        first["year"] = rng.choice(YEAR_KINDS)
+        first["month"] = rng.choice([1, 2, 2, 12, first["month"]])
+
+    def dress(st):
+        st.update({"unit": rng.choice(["s", "ms", "us", "ns"]), "freq": rng.random() < 0.6,
+                   "tz": rng.choice(M2D_TZ), "name": rng.random() < 0.3, "hold": rng.choice(M2D_HOLD),
+                   "obj": "new"})
+        return st
+
+    steps = [dress({k: first[k] for k in ("interp", "year", "month", "vals")})]
+    for _ in range(rng.randint(1, 3)):
+        prev = steps[-1]
+        st = dict(prev, vals=list(prev["vals"]))
+        what = rng.choice(["interp", "year", "year", "month", "vals", "again"])
+        if what == "interp":
+            st["interp"] = "flat" if prev["interp"] == "cubic" else "cubic"
+            st["obj"] = rng.choice(["same", "same", "new"])
+        elif what == "again":
+            st["obj"] = "same"
+        elif what == "year":
+            n = len(prev["vals"])
+            st["year"] = rng.choice([y for y in YEAR_KINDS + [prev["year"] + 1, prev["year"] - 1]
+                                     if y != prev["year"] and TS_YEAR_MIN <= y <= TS_YEAR_MAX - n // 12 - 2])
+            dress(st)
+        elif what == "month":
+            st["month"] = prev["month"] % 12 + 1
+            dress(st)
+        else:
+            n = len(prev["vals"])
+            st["vals"] = gen_m2d_case(rng, n, "flat")["vals"] if rng.random() < 0.5 else \
+                [float(rng.randint(0, 300)) for _ in range(n)]
+            while len(st["vals"]) != n:
+                st["vals"] = (st["vals"] + [float(rng.randint(0, 300)) for _ in range(n)])[:n]
+            st["obj"] = rng.choice(["rewrite", "rewrite", "new"])
+        steps.append(st)
+    return {"call": "series", "steps": steps}
+
+
+class SeriesLife:
+    """the caller's monthly Series and the daily series it was handed back, over a
+    sequence of calls of monthly2daily"""
+
+    def __init__(self):
+        self.se = self.owner = self.made = self.stamps = None
+        self.kept = []
+        self.nobj = 0
+
+    @staticmethod
+    def days_of(sed):
+        return [(int(t.year), int(t.month), int(t.day)) for t in sed.index]
+
+    def writable(self):
+        return self.made is not None and self.made["hold"] in ("plain", "frame-column", "slice", "strided") \
+            and str(self.se.dtype) == "float64"
+
+    def step(self, k, st):
+        """-> (values or None, days or None, text of the exception, what was done with the object)"""
+        from hydrodiy.data import dutils
+        how = st["obj"]
+        same_stamp = self.made is not None and all(self.made[f] == st[f] for f in ("year", "month")) \
+            and len(self.made["vals"]) == len(st["vals"])
+        if how == "same" and same_stamp:
+            pass
+        elif how == "rewrite" and same_stamp and self.writable() and self.rewrite(st["vals"]):
+            pass
+        else:
+            how = "new"
+            self.nobj += 1
+            self.se, self.owner = build_monthly(st, salt=self.nobj)
+            self.made, self.stamps = st, self.se.index.copy()
+        try:
+            with np.errstate(all="ignore"):
+                sed = dutils.monthly2daily(self.se, interpolation=st["interp"])
+            out, days = fl(sed.values), self.days_of(sed)
+        except Exception as e:
+            return None, None, f"{type(e).__name__}: {str(e)[:120]}", how
+        self.kept.append((k, st["interp"], sed, out, days))
+        return out, days, None, how
+
+    def stale(self):
+        bad = []
+        for k, interp, sed, then, days in self.kept:
+            now = fl(sed.values)
+            if not same_floats(then, now) or self.days_of(sed) != days:
+                bad.append((k, interp, then, now))
+        return bad
+
+    def rewrite(self, vals):
+        """the caller assigns other values to the months of its series (in place)"""
+        try:
+            self.se.loc[self.stamps] = np.array(vals, dtype=np.float64)
+            return True
+        except Exception:
+            return False
+
+    def scribble(self):
+        if self.se is not None and self.writable():
+            self.rewrite([4321.5] * len(self.stamps))
+
+
+def run_arrays(case, add, session_fail, count):
+    """a sequence of aggregate / flathomogen / goue calls on the caller's objects"""
+    life = ArrLife()
+    replay = dict(case, impl=[])
+    mine = []
+    for k, st in enumerate(case["steps"]):
+        fn = st["fn"]
+        out, exc, (hi, hx) = life.step(k, st)
+        replay["impl"].append(out if exc is None else exc)
+        one = {"call": fn, "idx": st["idx"], "xs": st["xs"], "maxnan": st["maxnan"]}
+        if fn == "aggregate":
+            one["op"] = st["op"]
+        where = (f"call {k + 1} of {len(case['steps'])} ({fn}; index held as {life.I.rep}, {hi}; inputs as "
+                 f"{life.X.rep}, {hx}; parameters as {st['par_repr']})")
+        sig = ("arrays", fn, st.get("op"), life.I.rep, life.X.rep, hi, hx, out is None)
+        if fn == "goue":
+            count(sig)
+            fs = oracle_goue(one, got=out[0]) if out is not None and len(out) == 1 else []
+            if out is None and groups_of(st["idx"]) is not None:
+                fs = [("C08/goue/valid-input-rejected", "raised")]
+        else:
+            mine.append(add(term(one, out), replay, sig))
+            fs = oracle_aggregate(one, out) if fn == "aggregate" else oracle_flathomogen(one, out)
+        for key, what in fs:
+            held = ""
+            if life.I.get() != [int(v) for v in st["idx"]] or not same_floats(life.X.get(), fl(st["xs"])):
+                held = "; the caller's objects no longer hold what the caller wrote"
+            session_fail(replay, mine, key, f"{where}: {what}{' [' + exc + ']' if exc else ''}{held}")
+        if k == len(case["steps"]) - 1:
+            life.scribble()
+        for k0, fn0, then, now in life.stale():
+            session_fail(replay, mine, f"C08/{fn0}/earlier-result-changed",
+                         f"the vector returned by call {k0 + 1} ({fn0}) was {then[:6]} and reads {now[:6]} "
+                         f"after {where}" + (" and after the caller overwrote its own arrays"
+                                             if k == len(case["steps"]) - 1 else ""))
+            break
+
+
+def run_series(case, add, session_fail):
+    """a sequence of monthly2daily calls on the caller's monthly Series"""
+    life = SeriesLife()
+    replay = dict(case, impl=[])
+    mine = []
+    for k, st in enumerate(case["steps"]):
+        out, days, exc, how = life.step(k, st)
+        replay["impl"].append(out[:40] if exc is None else exc)
+        one = {"call": "monthly2daily", "interp": st["interp"], "year": st["year"], "month": st["month"],
+               "vals": [float(v) for v in st["vals"]]}
+        made = life.made
+        where = (f"call {k + 1} of {len(case['steps'])} (monthly2daily {st['interp']}, {len(st['vals'])} months "
+                 f"from {st['year']}-{st['month']:02d}; Series {how}: unit {made['unit']}, "
+                 f"{'freq MS' if made['freq'] else 'no freq'}, tz {made['tz']}, held as {made['hold']})")
+        sig = ("series", st["interp"], how, made["unit"], made["freq"], made["tz"], made["hold"],
+               calendar.isleap(st["year"]), out is None)
+        mine.append(add(term(one, out), replay, sig))
+        for key, what in oracle_m2d(one, out, days):
+            session_fail(replay, mine, key, f"{where}: {what}{' [' + exc + ']' if exc else ''}")
+        if k == len(case["steps"]) - 1:
+            life.scribble()
+        for k0, interp0, then, now in life.stale():
+            session_fail(replay, mine, f"C08/monthly2daily/{interp0}/earlier-result-changed",
+                         f"the daily series returned by call {k0 + 1} ({interp0}) started {then[:4]} and reads "
+                         f"{now[:4]} after {where}")
+            break
 
 
 # ----------------------------------------------------------------------------
@@ -541,10 +983,16 @@ def fixed_replays():
 def clean_case(r):
     """case dict of a replay / corpus file: input fields only; null stands for NaN"""
     case = {k: v for k, v in r.items() if k in
-            ("call", "idx", "xs", "op", "maxnan", "interp", "year", "month", "vals")}
+            ("call", "idx", "xs", "op", "maxnan", "interp", "year", "month", "vals", "steps")}
     for k in ("xs", "vals"):
         if k in case:
             case[k] = [NAN if v is None else float(v) for v in case[k]]
+    if "steps" in case:
+        case["steps"] = [dict(st) for st in case["steps"]]
+        for st in case["steps"]:
+            for k in ("xs", "vals"):
+                if k in st:
+                    st[k] = [NAN if v is None else float(v) for v in st[k]]
     return case
 
 
@@ -556,7 +1004,18 @@ def run(ctx):
                 "0..beyond the group length; monthly2daily flat and cubic: 2..60 (thorough 400) months from any "
                 "month of years 1678..2259 incl. 1700/1800/1900/2000/2100/2200, non-negative values; calendar: "
                 "every (year, month 0..13) of 1590..2409 (thorough -2500..4499) + pandas days_in_month of every "
-                "month 1678..2261; non-trivial = distinct case signature")
+                "month 1678..2261; caller-side objects: 300 (thorough 3000) sequences of 2..5 calls of aggregate / "
+                "flathomogen / goue with the index held as list / tuple / int64 / int32 / smallest integer ndarray "
+                "(plain, strided, negative stride, read-only, byte-swapped, column) / pandas Series (text, shuffled, "
+                "duplicated, date labels) / Index, the inputs as float64 ndarray (plain, strided, negative stride, "
+                "read-only, byte-swapped, Fortran / C column, inner slice), operator and maxnan as int / numpy "
+                "int32 / int64 / 0-d array, the objects passed again untouched / rewritten in place / rebuilt, "
+                "earlier results held and re-read after every call and after the caller overwrites its arrays; "
+                "60 (thorough 500) sequences of 2..4 calls of monthly2daily on Series with index unit s/ms/us/ns, "
+                "with / without freq, naive / UTC / Etc/GMT-10 / Asia/Kolkata, float64 / int64 values, plain / "
+                "DataFrame column / slice of a longer series / read-only / strided buffer, successive calls "
+                "differing in interpolation, year (same month and length; leap, common, century), month or values, "
+                "the Series passed again / rewritten in place / rebuilt; non-trivial = distinct case signature")
     ctx.trusted = cm.STD_TRUST + [
         "pandas resample/ffill/date arithmetic in monthly2daily is glue: the model takes the month list from "
         "its own calendar (c_dateutils.c table), pandas' days_in_month is compared with it month by month",
@@ -564,7 +1023,9 @@ def run(ctx):
     ctx.tested_not_proved = [
         "binary64 rounding of sums/means/totals (1e-9 of the sum of magnitudes) - tested against exact rationals",
         "monthly2daily output index (one stamp per calendar day) - tested against python's calendar",
-        "goue = NSE against the group means - tested against exact rationals"]
+        "goue = NSE against the group means - tested against exact rationals",
+        "independence of the stored representation of index / inputs / monthly Series and of earlier calls on the "
+        "same objects (results judged by the same oracle and model; earlier results re-read) - tested"]
     proved = cm.prove_with_kernels(ctx, ["c_aggregate", "c_flathomogen"])
     cm.use_impl()
     rng = ctx.rng
@@ -608,6 +1069,22 @@ def run(ctx):
             i = add(term(case, out), dict(case, impl=None if out is None else out[:40]), sig)
             for key, what in oracle_m2d(case, out, days):
                 fail(i, key, what)
+        elif c == "arrays":
+            do_arrays(case)
+        elif c == "series":
+            do_series(case)
+
+    def session_fail(replay, mine, key, what):
+        orc_fail.update(mine)
+        ctx.failure(key + "/caller-objects", replay, what)
+
+    def do_arrays(case):
+        cm.mark(case)
+        run_arrays(case, add, session_fail, ctx.count)
+
+    def do_series(case):
+        cm.mark(case)
+        run_series(case, add, session_fail)
 
     # replay file given on the command line, then the corpus, then the recorded defects
     extra = []
@@ -616,7 +1093,7 @@ def run(ctx):
         if isinstance(r, dict) and "call" in r:
             extra.append(clean_case(r))
     for case in extra + [clean_case(c) for c in cm.load_corpus(PID)] + fixed_replays():
-        if case.get("call") in ("aggregate", "flathomogen", "monthly2daily"):
+        if case.get("call") in ("aggregate", "flathomogen", "monthly2daily", "arrays", "series"):
             do_case(case)
 
     maxlen = ctx.scale(60, 400)
@@ -637,6 +1114,11 @@ def run(ctx):
     case = gen_m2d_case(rng, 12, "flat")
     case["interp"] = "linear"
     do_case(case)
+    # the caller's objects: stored representations and sequences of calls
+    for _ in range(ctx.scale(300, 3000)):
+        do_case(gen_arr_session(rng, ctx.scale(40, 200)))
+    for _ in range(ctx.scale(60, 500)):
+        do_case(gen_m2d_session(rng, maxmonths))
     calendar_cases(ctx, add, fail)
 
     bad, nshards, failed = cm.run_case_files(PID, HEADER, "dcase", "d_ok", terms, shard=6000,
